@@ -71,11 +71,17 @@ void sthread_disable(void) __CPROVER_requires(1) __CPROVER_assigns() __CPROVER_e
 void sthread_enable(void) __CPROVER_requires(1) __CPROVER_assigns() __CPROVER_ensures(1);
 /* ActivityImpl::cancel (virtual): "cancel() removes the activity from this collection" (comment in the source): the
  * activity leaves the activities_ of the actor that is cleaning up (g_p0 in the harness), the others keep their order */
+/* (no dereference of `self` in this contract: in the caller it is read from the array the previous call havocked, and
+ * such a pointer has no points-to set for the symbolic executor - the counters are selected by comparing the pointer) */
+#define CANCELED_ONE(i) (g_v##i.vf_canceled == __CPROVER_old(g_v##i.vf_canceled) + (self == &g_v##i ? 1 : 0))
 void ActivityImpl__cancel(struct ActivityImpl* self)
-    __CPROVER_requires(IS_ACTV(self) && g_p0.activities_.n > 0 && g_p0.activities_.n <= AC && self == g_ak0[0] &&
-                       self->vf_canceled < 2000)
-    __CPROVER_assigns(self->vf_canceled, g_p0.activities_.n, __CPROVER_object_whole(g_ak0))
-    __CPROVER_ensures(self->vf_canceled == __CPROVER_old(self->vf_canceled) + 1 &&
+    __CPROVER_requires(IS_ACTV(self))
+    __CPROVER_requires(g_p0.activities_.n > 0 && g_p0.activities_.n <= AC)
+    __CPROVER_requires(self == g_ak0[0])
+    __CPROVER_requires(g_v0.vf_canceled < 2000 && g_v1.vf_canceled < 2000 && g_v2.vf_canceled < 2000)
+    __CPROVER_assigns(g_v0.vf_canceled, g_v1.vf_canceled, g_v2.vf_canceled, g_p0.activities_.n,
+                      __CPROVER_object_whole(g_ak0))
+    __CPROVER_ensures(CANCELED_ONE(0) && CANCELED_ONE(1) && CANCELED_ONE(2) &&
                       g_p0.activities_.n == __CPROVER_old(g_p0.activities_.n) - 1 &&
                       g_ak0[0] == __CPROVER_old(g_ak0[1]) && g_ak0[1] == __CPROVER_old(g_ak0[2]));
 void ActivityImpl__suspend(struct ActivityImpl* self) __CPROVER_requires(IS_ACTV(self) && self->vf_suspended < 2000)
